@@ -53,6 +53,7 @@ def table(n, seed):
     return pd.DataFrame({
         "k1": r.randint(0, 5, n), "k2": r.randint(0, 3, n), "k3": pd.array(r.choice(["a", "b", "c"], n), dtype="str"),
         "x": r.randint(0, 20, n) / 2.0, "y": r.randint(0, 50, n), "u": r.permutation(n), "rid": np.arange(n),
+        "ks": np.arange(n) // 3,  # ordered across partitions, runs of equal keys straddle the partition borders (presorted fast path)
     }, index=pd.Index(np.arange(n), name="ix"))
 
 
@@ -94,7 +95,7 @@ def grid():
                         for method in ("tasks", "disk"):
                             cells.append({"fam": "merge", "how": how, "np": npart, "nr": nr, "broadcast": bc, "npartitions": hint, "method": method})
         for fam in ("sort_values", "set_index"):
-            for key in ("u", "k1", "rid"):
+            for key in ("u", "k1", "rid", "ks"):
                 for hint in (None, 1, 3):
                     for up in (None, 0.5, 2.0):
                         for asc in ((True, False) if fam == "sort_values" else (True,)):
@@ -165,10 +166,14 @@ def build(case, knobs=True):
             exp = pdf.merge(rt, on="k1", how=how)
         return d.merge(r, on="k1", how=how, **kw("broadcast", "npartitions")), exp, 0, 0
     if fam == "sort_values":
-        key = [case["key"]] if case["key"] != "k1" else ["k1", "u"]
+        key = [case["key"]] if case["key"] not in ("k1", "ks") else [case["key"], "u"]
         return d.sort_values(key, **kw("npartitions", "upsample", "ascending")), pdf.sort_values(key, ascending=case.get("ascending", True) if knobs else True), 1, 1
     if fam == "set_index":
-        unique = case["key"] != "k1"
+        unique = case["key"] not in ("k1", "ks")
+        if case["key"] == "ks":
+            # a division consumer: loc of the key value that straddles the first partition border
+            b0 = int(pdf.ks.iloc[len(pdf) // max(1, case["np"])]) if case["np"] > 1 else 2
+            return d.set_index("ks", **kw("npartitions", "upsample")).loc[b0:b0 + 1], pdf.set_index("ks").sort_index(kind="stable").loc[b0:b0 + 1], 0, 1
         return d.set_index(case["key"], **kw("npartitions", "upsample")), pdf.set_index(case["key"]).sort_index(kind="stable"), int(unique), 1
     raise ValueError(fam)
 
